@@ -9,7 +9,7 @@ THEOREMS = ['Otel.C04.' + t for t in (
     'run_closed_form', 'fanout_identical', 'each_processor_notified_once', 'exported_span_count',
     'end_once', 'end_once_step', 'ended_iff_no_recordable', 'step_ended',
     'name_is_last_update', 'attr_last_write_wins', 'attr_keys_distinct', 'events_links_in_order', 'own_attrs_last_write_wins',
-    'status_is_last_set', 'kind_start_resource_scope', 'duration_eq_end_minus_start', 'duration_clock',
+    'status_is_last_set', 'kind_start_resource_scope', 'scope_attrs_last_write_wins', 'duration_eq_end_minus_start', 'duration_clock',
     'convert_matches_source', 'every_alternative_modelled', 'owned_index_valid', 'convert_keeps_content',
     'spanKind_statusCode_counts')] + [
     'Otel.SAttr.Map.lookup_foldl_setAttribute', 'Otel.SAttr.Map.nodup_foldl_setAttribute', 'Otel.SAttr.Map.lookup_ofIterable']
@@ -44,7 +44,13 @@ RULE = ('one case = one span program: StartSpan(name, kind, system/steady start 
         'real threads apply their mutators to the one span at the same time - keys / event names are per thread, so every '
         'interleaving must give the same record up to the relative order of events of different threads, which is printed '
         'grouped), then ~Span and a final ForceFlush; a further stream runs the same kind of programs plus AddLink / AddLinks against an '
-        'ABI-v2 build of the same sources. Every caller buffer is an '
+        'ABI-v2 build of the same sources; there 45% of the tracers are requested with scope attributes (GetTracer pointer / '
+        'container / initializer-list overloads), mostly after a decoy request for the same name / version / schema whose attributes '
+        'differ in one place or only in order. Which API overload carries a call (Tracer::StartSpan: virtual, KeyValueIterable '
+        'without links, container templates, initializer lists for attributes and / or links; Span::AddEvent / AddLink / AddLinks: '
+        'virtual, container template, initializer list; End() / SetStatus(code) default arguments; provider / tracer ForceFlush / '
+        'Close; processors built by constructor or by their factories; first or second GetTracer of the scope; explicit-context / context / root-context parent option) rotates '
+        'deterministically with the shape of the case. Every caller buffer is an '
         'exact-size heap block freed right after the call. non-trivial = the program has at least one operation and is accepted; '
         'distinct = distinct case line')
 TRUSTED = ['harness exporter/canonicaliser (renders SpanData at Export time; clock-dependent times printed as now/auto)',
@@ -216,7 +222,7 @@ def gen_program(rng, big=False, threaded=False, nprocs=None, par=False, v2=False
         # a processor attached to the provider while the span is in flight (TracerProvider::AddProcessor): it saw no OnStart,
         # has no recordable of this span and must see nothing of it
         for _ in range(rng.choice([1, 1, 2])):
-            ops.insert(rng.randrange(len(ops) + 1), f'addproc {rng.choice("ssb")}')
+            ops.insert(rng.randrange(len(ops) + 1), f'addproc {rng.choice("ssbn")}')     # n = AddProcessor(nullptr): ignored
     if par:
         # a concurrent section: 2-4 threads, each with its own keys / event names (first byte = its digit)
         sec = []
@@ -238,12 +244,52 @@ def gen_program(rng, big=False, threaded=False, nprocs=None, par=False, v2=False
         ops = ops[:at] + ['par'] + sec + (['seq'] if at < len(ops) or rng.random() < 0.7 else []) + ops[at:]
     if v2:
         cfg = 'span2' + cfg[4:]
+        if rng.random() < 0.45:
+            # the tracer is requested with scope attributes; mostly after a decoy request that differs in one place (a value,
+            # a missing / extra pair) or only in the order of the pairs
+            n = rng.choice([0, 1, 1, 2, 3, 3, 5])
+            kvs = [(hx(r_key(rng, pool)), r_value(rng, big)) for _ in range(n)]
+            tok = lambda l: ','.join(f'{k}={v}' for k, v in l) if l else '-'
+            sc2 = scope + '/' + tok(kvs)
+            r = rng.random()
+            if r < 0.8:
+                d = list(kvs)
+                m = rng.random()
+                if d and m < 0.45:
+                    j = rng.randrange(len(d)); v = d[j][1]
+                    d[j] = (d[j][0], r_value(rng, big, v[0]) if rng.random() < 0.7 else r_value(rng, big))    # same type, other value / other type
+                elif d and m < 0.6:
+                    del d[rng.randrange(len(d))]
+                elif m < 0.75:
+                    d.insert(rng.randrange(len(d) + 1), (hx(r_key(rng, pool)), r_value(rng, big)))
+                elif d and m < 0.85:
+                    j = rng.randrange(len(d)); d[j] = (hx(r_bytes(rng, 6) + b'~'), d[j][1])                          # same size, one key replaced
+                elif m < 0.95:
+                    rng.shuffle(d)
+                sc2 += '/' + tok(d)
+            toks = cfg.split(' ')
+            assert toks[3] == scope
+            toks[3] = sc2
+            cfg = ' '.join(toks)
     return ' ; '.join([cfg] + ops)
+
+
+# Cases that FAIL on the unchanged tree and are therefore NOT part of corpus() / generate(): candidate findings for triage
+# (coverage/AUDIT_C04.md).  Processor kind `z` = a SpanProcessor whose MakeRecordable() returns nullptr (the harness has it; the
+# Lean model does not: it answers bad-op).  Expected by the property: no crash, every processor that handed out a recordable
+# receives its copy exactly once, the `z` processor is not notified (MultiSpanProcessor::OnStart / OnEnd and Span::Span test
+# for a null recordable, MultiRecordable's setters do not).  Observed: UBSan / SEGV `member access within null pointer of
+# type 'struct Recordable'` at multi_recordable.h:111 (MultiRecordable::SetName, first setter of Span::Span).
+CANDIDATE_FINDINGS = [
+    'span z 72 6c/-/- 6e 0 0 0 - - ; end 0',
+    'span sz 72 6c/-/- 6e 0 0 0 - - ; attr 6b i:1 ; end 0',
+]
 
 
 def corpus():
     C = lambda line, *tags: Case(line, H, ('corpus',) + tags, 'corpus')
     _late = [C('span s 72 6c/-/- 6e 0 0 0 - - ; attr 6b i:1 ; addproc s ; attr 6b i:2 ; end 0', 'addproc-mid-flight'),
+             C('span sb 72 6c/-/- 6e 0 0 0 - - ; addproc n ; attr 6b i:1 ; addproc n ; end 0 ; addproc n', 'addproc-null'),
              C('span sb 72 6c/-/- 6e 0 0 0 6b=i:1 - ; addproc b ; addproc s ; ev 65 ; end 0 ; flush', 'addproc-mid-flight')]
     base = 'span sb 7265 6c6962/31/- 6e616d65 1 1000 5000'
     out = [
@@ -273,6 +319,19 @@ def corpus():
     L = lambda k: f'{k * 32}/{k * 16}/0{k}/'
     out.append(Case('span2 sb - 6c/-/- 6e 0 5 7 - ' + L('1') + '- ; link ' + L('2') + '6b=i:1,6b=i:2 ; links ' + L('3') + '-|' + L('4') + '61=S:61.- ; links - ; '
                     'end 9 ; link ' + L('5') + '- ; links ' + L('6') + '-', H2, ('corpus', 'abi2-addlink'), 'corpus'))
+    V2 = lambda line, *tags: out.append(Case(line, H2, ('corpus',) + tags, 'corpus'))
+    V2('span2 sb - 6c/31/- 6e 0 5 7 - - ; end 9', 'abi2-scope-attrs-none')
+    V2('span2 sb - 6c/31/-/- 6e 0 5 7 - - ; end 9', 'abi2-scope-attrs-empty')
+    V2('span2 sb - 6c/31/-/6b=i:1,6b=i:2,61=s:6100/6b=i:2,61=s:6100 6e 0 5 7 - - ; end 9', 'abi2-scope-attrs-duplicate-key')
+    V2('span2 s - 6c/-/75/6b=i:1,61=S:61.-/6b=i:1,61=S:61.62 6e 0 5 7 - - ; end 9', 'abi2-scope-attrs-decoy-differs-in-array')
+    V2('span2 s - 6c/-/75/6b=i:1,61=c:6162/61=s:6162,6b=i:1 6e 0 5 7 - - ; end 9', 'abi2-scope-attrs-decoy-equal-as-map')
+    V2('span2 s - 6c/-/75/6b=i:1,61=c:6162/6b=i:1,62=c:6162 6e 0 5 7 - - ; end 9', 'abi2-scope-attrs-decoy-other-key')
+    V2('span2 b 72 6c6c/-/-/' + ','.join(f'{i:02x}={v}' for i, v in enumerate(('b:1', 'i:-2', 'l:3', 'u:4', 'U:5', 'd:3ff0000000000000', 'c:63', 's:7300', 'B:1.0', 'I:1', 'L:2', 'V:3',
+       'W:4', 'D:7ff8000000000000', 'S:61.-', 'Y:00ff'))) + '/' + ','.join(f'{i:02x}={v}' for i, v in enumerate(('b:1', 'i:-2', 'l:3', 'u:4', 'U:5', 'd:3ff0000000000000', 'c:63', 's:7300',
+       'B:1.0', 'I:1', 'L:2', 'V:3', 'W:4', 'D:7ff8000000000000', 'S:61.-', 'Y:00fe'))) + ' 6e 0 5 7 - - ; end 9', 'abi2-scope-attrs-all-alternatives')
+    out.append(C('span s - 6c/-/-/- 6e 0 0 0 - - ; end 0', 'malformed'))       # no scope attributes under ABI v1
+    for bad in ('span2 s - 6c/-/-/-/-/- 6e 0 0 0 - -', 'span2 s - 6c/-/-/6b 6e 0 0 0 - -', 'span2 s - 6c/-/-/-/6b=x:1 6e 0 0 0 - -'):
+        out.append(Case(bad, H2, ('corpus', 'malformed'), 'corpus'))
     for bad in ('span2 s - 6c/-/- 6e 0 0 0 - - ; link -', 'span2 s - 6c/-/- 6e 0 0 0 - - ; link ' + L('1') + '-|' + L('2') + '-', 'span2 s - 6c/-/- 6e 0 0 0 - - ; links',
                 'span2 s - 6c/-/- 6e 0 0 0 - - ; par ; @1 link ' + L('1') + '-', 'span2 s - 6c/-/- 6e 0 0 0 - - ; link 00/00/00/-'):
         out.append(Case(bad, H2, ('corpus', 'malformed'), 'corpus'))
@@ -434,13 +493,19 @@ def spec_expected(line):
     if len(c) != 9:
         raise Bad('cfg')
     procs = c[0]
-    if not re.fullmatch(r'[sb]{1,8}', procs):
+    if not re.fullmatch(r'[sb]{1,8}', procs) and not (line in CANDIDATE_FINDINGS and re.fullmatch(r'[sbz]{1,8}', procs)):
         raise Bad('procs')
     res = _hex(c[1])
     sc = c[2].split('/')
-    if len(sc) != 3:
+    if len(sc) not in ((3, 4, 5) if v2 else (3,)):
         raise Bad('scope')
-    scope = '/'.join(hx(_hex(x)) for x in sc)
+    scope = '/'.join(hx(_hex(x)) for x in sc[:3])
+    if len(sc) > 3:
+        # ABI v2: the tracer was requested with scope attributes (sc[3]); sc[4] are the attributes of a decoy request for
+        # the same name / version / schema whose tracer is not used - the exported scope carries sc[3], last write per key
+        scope += show_map(spec_attrs(sc[3]))
+        if len(sc) > 4:
+            spec_attrs(sc[4])
     name = _hex(c[3])
     kind = _int(c[4], 0, 4, signed=False)
     sys_t = _int(c[5], *I64)
@@ -489,7 +554,7 @@ def spec_expected(line):
         elif k == 'name' and len(o) == 2: parsed.append(('name', _hex(o[1])))
         elif k == 'end' and len(o) == 2: parsed.append(('end', _int(o[1], *I64)))
         elif k in ('flush', 'isrec') and len(o) == 1: parsed.append((k,))
-        elif k == 'addproc' and len(o) == 2 and o[1] in ('s', 'b') and tag is None: parsed.append(('addproc',))
+        elif k == 'addproc' and len(o) == 2 and o[1] in ('s', 'b', 'n') and tag is None: parsed.append(('addproc',))
         elif v2 and k == 'link' and len(o) == 2:
             ls = p_links(o[1])
             if len(ls) != 1:
@@ -523,7 +588,7 @@ FIELDS = ('name', 'kind', 'start', 'dur', 'attrs', 'events', 'links', 'status', 
 CLAUSE = {'name': 'name-is-last-UpdateName-before-End', 'kind': 'kind-as-started', 'start': 'start-time-as-started',
           'dur': 'duration-is-first-End-minus-start', 'attrs': 'attributes-last-write-wins-before-End',
           'events': 'events-in-call-order-with-own-attributes', 'links': 'links-in-call-order-with-own-attributes',
-          'status': 'status-is-last-SetStatus-before-End', 'res': 'resource-of-the-provider', 'scope': 'scope-of-the-tracer'}
+          'status': 'status-is-last-SetStatus-before-End', 'res': 'resource-of-the-provider', 'scope': 'scope-of-the-tracer-with-its-attributes'}
 
 
 def strip_index(s):
@@ -548,7 +613,7 @@ def model_line(case, out):
     if m and hasattr(m, 'model_line'):
         return m.model_line(case, out)
     # the model has the configured processors only: a processor attached mid-flight sees nothing of the span
-    return re.sub(r' ; addproc [sb](?= ;|$)', '', case.line)
+    return re.sub(r' ; addproc [sbn](?= ;|$)', '', case.line)
 
 
 def agree(case, out, mout):
@@ -583,6 +648,10 @@ def _oracle(case, out):
     parts = parts[:1 + len(procs)]
     copies = []
     for i, seg in enumerate(parts[1:]):
+        if procs[i] == 'z':                # candidate-finding cases only: a processor without recordable is never notified
+            if seg != f'p{i}:z:start=0:end=0:x=[]':
+                return ('processor-without-recordable-is-not-notified', f'processor {i}: {seg[:160]}')
+            continue
         m = re.fullmatch(r'p(\d+):([sb]):start=(\d+):end=(\d+):x=\[(.*)\]', seg)
         if not m or int(m.group(1)) != i or m.group(2) != procs[i]:
             return ('each-processor-notified-exactly-once', f'processor {i}: {seg[:120]}')
@@ -596,9 +665,11 @@ def _oracle(case, out):
     for i, cp in enumerate(copies):
         if cp != copies[0]:
             return ('every-processor-gets-an-identical-copy', f'processor {i} differs from processor 0')
+    if not copies:
+        return None
     got = dict(zip(FIELDS, copies[0]))
     for f in FIELDS:
-        g = strip_index(got[f]) if f in ('attrs', 'events', 'links') else got[f]
+        g = strip_index(got[f]) if f in ('attrs', 'events', 'links', 'scope') else got[f]
         if g != want[f]:
             return (CLAUSE[f], f'{f}: got {g[:300]} want {want[f][:300]}')
     return None
